@@ -673,7 +673,13 @@ def op_coq(op):
     return {"run": "ORun", "complete": "OComplete", "clear": "OClear"}[op[0]]
 
 
-HEAPS: dict = {}       # case (canonical JSON) -> (reflected initial heap, id of the driven node); filled by run_impl
+# The reflected initial heap belongs to ONE execution of run_impl: the order of some connection lists (the
+# accumulate_and_run wiring, built from a python set of node objects) depends on object addresses, so two
+# executions of an equal case may legitimately differ.  check.py hands model_term the very dict it handed
+# run_impl, so the heap is filed under that object's identity (cases stay alive for the whole run); the
+# content key is only a fallback for a case that was rebuilt from JSON.
+HEAPS: dict = {}       # id(case dict) -> (heap, id of the driven node)
+HEAPS_BY_KEY: dict = {}
 
 
 def ckey_of(case):
@@ -681,11 +687,18 @@ def ckey_of(case):
 
 
 def remember(case, heap, target):
-    HEAPS[ckey_of(case)] = (heap, target)
+    HEAPS[id(case)] = (heap, target)
+    HEAPS_BY_KEY[ckey_of(case)] = (heap, target)
+
+
+def recall(case):
+    if id(case) in HEAPS:
+        return HEAPS[id(case)]
+    return HEAPS_BY_KEY.get(ckey_of(case), (None, None))
 
 
 def model_term(case):
-    heap, target = HEAPS.get(ckey_of(case), (None, None))
+    heap, target = recall(case)
     if heap is None or not modelled(case):
         return None
     mode = os.environ.get("VERIF_C10_MODE", "AsWritten")     # Repaired: only to validate the proposed patch in a scratch worktree
